@@ -541,7 +541,7 @@ func init() {
 		}
 		n, nfault := 6000, 450
 		if thorough() {
-			n, nfault = 100000, 6000
+			n, nfault = 500000, 20000
 		}
 		var jobs []func()
 		for i := 0; i < n; i++ {
